@@ -80,14 +80,14 @@ def rule_row(ctx, M, u):
                 probs.append("item stored in a slot that is not the input's own position")
             if v is None or not flow.is_payload(v, c.block, "Ready", "Some"):
                 probs.append("value stored is not the input's own item")
-            r = bi.body.reach([t for _, t in se], avoid_blocks=[b], stop_blocks=exits, avoid_edges=avoid)
+            r = bi.reach_from_edges(se, avoid_blocks=[b], stop_blocks=exits, avoid_edges=avoid)
             if any(x in r for x in exits):
                 probs.append("item is not stored on every Some path")
         for b, slot, idx, v, w in c02.slot_writes(bi):
             if v is not None and flow.derives_from(v, c.block) and not c02.slot_is_child(M, u, c, slot, idx, b):
                 probs.append("the input's item also flows to another slot")
         S = [b for b in c02.state_sets_for(M, u, c, ("Ready",)) if bi.guarded_by(b, se)]
-        r = bi.body.reach([t for _, t in se], avoid_blocks=S, stop_blocks=exits, avoid_edges=avoid)
+        r = bi.reach_from_edges(se, avoid_blocks=S, stop_blocks=exits, avoid_edges=avoid)
         if not S or any(x in r for x in exits):
             probs.append("slot state is not set Ready on every Some path")
         if probs:
@@ -157,14 +157,14 @@ def rule_emit(ctx, M, u):
         header, exits = common.loop_exits(bi, c.block)
         avoid = common.arm_feasible_avoid(u, c)
         tb = [t[0].block for t in tests]
-        r = bi.body.reach([t for _, t in se], avoid_blocks=tb, stop_blocks=exits, avoid_edges=avoid)
+        r = bi.reach_from_edges(se, avoid_blocks=tb, stop_blocks=exits, avoid_edges=avoid)
         probs = []
         if not tb or any(x in r for x in exits):
             probs.append("the all-ready test is not evaluated after the item is buffered")
         W = [b for b, slot, idx, v, w in c02.slot_writes(bi) if bi.guarded_by(b, se)]
         S = [b for b in c02.state_sets_for(M, u, c, ("Ready",)) if bi.guarded_by(b, se)]
         for name, blocks in (("the item is stored", W), ("the slot is marked Ready", S)):
-            r = bi.body.reach([t for _, t in se], avoid_blocks=blocks, stop_blocks=exits, avoid_edges=avoid)
+            r = bi.reach_from_edges(se, avoid_blocks=blocks, stop_blocks=exits, avoid_edges=avoid)
             if any(x in r for x in tb):
                 probs.append("the all-ready test can be evaluated before %s" % name)
         r = bi.reach_from_edges(se, stop_blocks=[header] if header is not None else [], avoid_edges=list(avoid) + te)
